@@ -39,7 +39,16 @@ func init() {
 			switch k := t.next(); k {
 			case "char":
 				r := t.recipe()
-				objs[i] = &hobj{char: &r}
+				if i%2 == 1 {
+					// every other character recipe starts life in the constructor and gets its fields assigned one by
+					// one afterwards, as the README does; whatever the constructor put into the value stays in it
+					c := spg.NewCharRecipe(r.Length)
+					c.Length, c.Allow, c.Require, c.Exclude = r.Length, r.Allow, r.Require, r.Exclude
+					c.AllowChars, c.RequireSets, c.ExcludeChars = r.AllowChars, r.RequireSets, r.ExcludeChars
+					objs[i] = &hobj{char: c}
+				} else {
+					objs[i] = &hobj{char: &r}
+				}
 			case "wl":
 				list, _ := t.wordsArg()
 				o := &hobj{list: list, orig: append([]string(nil), list...)}
